@@ -1411,11 +1411,132 @@ func randomCase(t *testing.T, out *vh.Out, rng *vh.Rand) {
 	}
 }
 
+// ---------------------------------------------------------------- control groups of one pattern, in every order
+//
+// "the decision is independent of the order in which policies are attached": 2-3 policies with one stanza each for the
+// SAME pattern, each with or without a control_group (ttl, self_auth_allowed, 1-2 named factors); NewACL over every
+// permutation; AllowOperation(update) -> the control group the request is subject to. One line per permutation
+//   cgmerge <cg of the 1st attached> <2nd> …  =>  nocg | cg:<ttl>:<self>:<sorted factor names>
+// and the marker when two permutations of the same policies disagree.
+type cgSpec struct {
+	present bool
+	ttl     int
+	self    bool
+	factors []string
+}
+
+func (c cgSpec) field() string {
+	if !c.present {
+		return "-"
+	}
+	s := "0"
+	if c.self {
+		s = "1"
+	}
+	return strconv.Itoa(c.ttl) + ":" + s + ":" + strings.Join(c.factors, "+")
+}
+
+func (c cgSpec) hcl() string {
+	var b strings.Builder
+	b.WriteString("path \"cg/x\" {\n  capabilities = [\"update\", \"read\"]\n")
+	if c.present {
+		b.WriteString("  control_group = {\n")
+		if c.ttl > 0 {
+			b.WriteString("    ttl = \"" + strconv.Itoa(c.ttl) + "s\"\n")
+		}
+		if c.self {
+			b.WriteString("    self_auth_allowed = true\n")
+		}
+		for _, f := range c.factors {
+			b.WriteString("    factor \"" + f + "\" {\n      controlled_capabilities = [\"update\"]\n      identity = {\n        group_names = [\"g-" + f + "\"]\n        approvals = 1\n      }\n    }\n")
+		}
+		b.WriteString("  }\n")
+	}
+	b.WriteString("}\n")
+	return b.String()
+}
+
+func cgOrderCase(t *testing.T, out *vh.Out, rng *vh.Rand, fixed []cgSpec) {
+	out.Reset()
+	ctx := namespace.RootContext(context.Background())
+	specs := fixed
+	if specs == nil {
+		n := 2 + rng.Intn(2)
+		for i := 0; i < n; i++ {
+			c := cgSpec{present: rng.Chance(60)}
+			if c.present {
+				c.ttl = []int{0, 15, 30, 60}[rng.Intn(4)]
+				c.self = rng.Chance(40)
+				c.factors = []string{rng.Pick([]string{"fa", "fb", "fc"})}
+				if rng.Chance(30) {
+					if f := rng.Pick([]string{"fa", "fb", "fc"}); f != c.factors[0] {
+						c.factors = append(c.factors, f)
+					}
+				}
+			}
+			specs = append(specs, c)
+		}
+	}
+	perms := [][]int{{0, 1}, {1, 0}}
+	if len(specs) == 3 {
+		perms = [][]int{{0, 1, 2}, {0, 2, 1}, {1, 0, 2}, {1, 2, 0}, {2, 0, 1}, {2, 1, 0}}
+	}
+	first := ""
+	for pi, perm := range perms {
+		var pols []*policy.Policy
+		var fields []string
+		for k, i := range perm {
+			p, err := policy.ParseACLPolicy(namespace.RootNamespace, specs[i].hcl())
+			if err != nil {
+				t.Fatalf("cgorder: parse: %v\n%s", err, specs[i].hcl())
+			}
+			p.Name = "p" + strconv.Itoa(k)
+			pols = append(pols, p)
+			fields = append(fields, specs[i].field())
+		}
+		res := vh.Catch(func() string {
+			acl, err := policy.NewACL(ctx, pols)
+			if err != nil {
+				return "err"
+			}
+			r := acl.AllowOperation(ctx, &logical.Request{Path: "cg/x", Operation: logical.UpdateOperation}, false)
+			if !r.Allowed {
+				return "denied"
+			}
+			if r.ControlGroup == nil {
+				return "nocg"
+			}
+			var names []string
+			for _, f := range r.ControlGroup.Factors {
+				names = append(names, f.Name)
+			}
+			sort.Strings(names)
+			s := "0"
+			if r.ControlGroup.SelfAuthorizationAllowed {
+				s = "1"
+			}
+			return "cg:" + strconv.Itoa(int(r.ControlGroup.TTL/time.Second)) + ":" + s + ":" + strings.Join(names, "+")
+		})
+		marker := ""
+		if pi == 0 {
+			first = res
+		} else if res != first {
+			marker = "!VIOL:the same policies attached in another order subject an update of cg/x to a different control group: " + first + " vs " + res + " (the approval requirement depends on the policies' order, i.e. on their names)#control-group-depends-on-policy-order"
+		}
+		out.Op(res+marker, append([]string{"cgmerge"}, fields...)...)
+	}
+}
+
 func TestVerifC03(t *testing.T) {
 	out := vh.Open()
 	defer out.Close()
 	rng := vh.NewRand(vh.Seed())
 	fixedCases(t, out, rng)
+	// the witness of finding F97, then generated ones
+	cgOrderCase(t, out, rng, []cgSpec{{present: true, ttl: 15, factors: []string{"admin-approval"}}, {}})
+	for i := 0; i < 200; i++ {
+		cgOrderCase(t, out, rng.Fork(uint64(1<<40+i)), nil)
+	}
 	n := vh.EnvInt("VERIF_C03_CASES", 8000)
 	if vh.Thorough() {
 		n = vh.EnvInt("VERIF_C03_CASES", 100000)
